@@ -384,3 +384,48 @@ func Harness_C09_ShadowedTarget() {
 	}
 	verifCover("end")
 }
+
+// the union has been USED before the match is parsed (a call of a function
+// whose signature mentions it, a payload constructor, a match on a function
+// result): whatever such uses write into the union's table entry, the match
+// is judged against all cases, payload-less ones included
+func Harness_C09_AfterUse() {
+	mask := 1 + verifChoice("mask", 7)
+	deflt := verifChoice("default", 2) == 1
+	pre := verifChoice("pre", 4)
+	src := "package main\n\ntype U =\n  | Kase0 of int\n  | Kase1\n  | Kase2\n\nlet show (u:U) =\n  1\n\nlet mk (a:int) =\n  if a > 0 then\n    Kase0 a\n  else\n    Kase1\n\n"
+	target := "u"
+	switch pre {
+	case 0:
+		src += "let f (u:U) =\n"
+	case 1: // a call of a function whose signature mentions the union
+		src += "let f (u:U) =\n  let k = show u\n"
+	case 2: // a payload constructor before the match
+		src += "let f (a:int) =\n  let u = Kase0 a\n"
+	default: // a match on a function result
+		src += "let f (a:int) =\n"
+		target = "mk a"
+	}
+	src += "  match " + target + " with\n"
+	forms := []string{"  | Kase0 x -> x\n", "  | Kase1 -> 1\n", "  | Kase2 -> 2\n"}
+	for i := 0; i < 3; i++ {
+		if mask&(1<<i) != 0 {
+			src += forms[i]
+		}
+	}
+	if deflt {
+		src += "  | _ -> 9\n"
+	}
+	verifSetFile("t.fo", src)
+	verifSetArgs([]string{"fc", "t.fo"})
+	code := verifRunMain(main)
+	if deflt || mask == 7 {
+		verifAssert(code == 0 && verifNumWrites() == 1, "a match that covers every case or has a default arm is accepted: "+verifStdout())
+		verifCover("accepted")
+	} else {
+		verifAssert(code != 0, "a match that omits a case and has no default arm is rejected, whatever used the union before")
+		verifAssert(verifNumWrites() == 0, "no output file for a rejected program")
+		verifCover("rejected")
+	}
+	verifCover("end")
+}
